@@ -491,6 +491,84 @@ def job_helper_axes(nchans, nints, desc):
     return recs
 
 
+def job_loaded_axes(T, Fc, desc):
+    """binary64 (delta model): a frame built by the load branch has exactly the file's integration / channel counts on
+    its own axes (ts, fs, ts_ext), i.e. the same lengths the stand-alone helpers report"""
+    fp.reset()
+    recs = []
+    tag = f"C03:loaded-axes:{(T, Fc, desc)}"
+    pre = []
+    fch1 = FSym.var('fch1', 1.0, 1e5, pre)          # MHz
+    adf = FSym.var('adf', 1e-7, 10.0, pre)
+    tsamp = FSym.var('tsamp', 1e-6, 1e3, pre)
+    pre.append(fch1.t >= RV(2 * Fc) * adf.t)
+    foff = -adf if desc else adf
+    px = npx.NPProxy()
+
+    def run():
+        w = WStub()
+        w.header.update({'fch1': fch1, 'foff': foff, 'tsamp': tsamp, 'nchans': Fc, 'source_name': 'SRC'})
+        w.container.selection_shape = (T, 1, Fc)
+        if desc:
+            w.container.f_stop, w.container.f_start = fch1, fch1 + foff * Fc
+        else:
+            w.container.f_start, w.container.f_stop = fch1, fch1 + foff * Fc
+        w.data = np.zeros((T, 1, Fc))
+        fr = FR.Frame(waterfall=w)
+        return fr, fr.ts_ext, WU.get_ts(w), WU.get_fs(w)
+    with frame_patches(proxy=px, extra=[(FR, dict(Waterfall=WStub, sigproc=SigprocStub, unit_utils=UnitStub, Time=TimeStub)), (WU, dict(Waterfall=WStub, np=px))]):
+        leaves = core.explore(run, pre, cap=60)
+    conds = []
+    for li, leaf in enumerate(leaves):
+        conds.append(leaf.cond())
+        base = pre + leaf.pc + leaf.side + list(fp.SIDE)
+        name = f"{tag}:leaf{li}"
+        if leaf.kind == 'exc':
+            r, m = core.check(base, timeout_ms=30000)
+            recs.append(q(name, r, detail=repr(leaf.value)))
+            if r == 'sat':
+                recs.append(cex('C03:loaded-axes:raise', f"loading raises in the binary64 model: {leaf.value!r} (candidate)", dict(fn='loaded', T=T, Fc=Fc, desc=desc, tsamp=core.model_float(m, tsamp), adf=core.model_float(m, adf), fch1=core.model_float(m, fch1)), name=name))
+            continue
+        fr, ext, hts, hfs = leaf.value
+        lens = (len(fr.ts), len(fr.fs), len(ext), len(hts), len(hfs))
+        ok = lens == (T, Fc, T + 1, T, Fc) and fr.shape == (T, Fc)
+        r, m = core.check(base + [z3.BoolVal(not ok)], timeout_ms=30000)
+        recs.append(q(name, r, lens=lens))
+        if r == 'sat':
+            recs.append(cex(f'C03:loaded-axes:T{T}', f"loaded frame has axes of {lens[:3]} entries (helpers {lens[3:]}) for a file of {T} integrations x {Fc} channels in binary64 (candidate)",
+                            dict(fn='loaded', T=T, Fc=Fc, desc=desc, tsamp=core.model_float(m, tsamp), adf=core.model_float(m, adf), fch1=core.model_float(m, fch1)), name=name))
+    r, _ = core.check(pre + list(fp.SIDE) + [z3.Not(z3.Or(*conds))], timeout_ms=60000)
+    recs.append(q(f"{tag}:split-complete", r, leaves=len(leaves)))
+    return recs
+
+
+def replay_loaded(p):
+    """real .fil/.h5 files of T integrations; candidate tsamp plus a sweep of unlucky-looking resolutions"""
+    import logging
+    import shutil
+    import tempfile
+    import setigen as stg
+    logging.disable(logging.CRITICAL)
+    T, Fc = max(p['T'], 3), max(p['Fc'], 4)
+    rng = np.random.default_rng(1)
+    cands = [p['tsamp'], 18.253611008, 1.431655765333332, 17.986224128, 0.1, 1.0737418239999999] + [float(10 ** rng.uniform(-3, 2)) for _ in range(40)]
+    tmp = tempfile.mkdtemp(prefix='c03l_', dir='/var/tmp')
+    try:
+        for k, dt in enumerate(cands):
+            for TT in sorted({T, 3, 6, 12, 93, 97, 115, 125}):
+                src = stg.Frame(fchans=Fc, tchans=TT, df=p['adf'] * 1e6 if k == 0 else 2.7939677238464355, dt=dt, fch1=6e9, ascending=not p['desc'], seed=0)
+                src.data = np.arange(TT * Fc, dtype=float).reshape(TT, Fc)
+                fn = os.path.join(tmp, f"f{k}_{TT}.{'fil' if k % 2 else 'h5'}")
+                (src.save_fil if k % 2 else src.save_h5)(fn)
+                fr = stg.Frame(waterfall=fn)
+                lens = (len(fr.ts), len(fr.fs), len(fr.ts_ext), len(stg.get_ts(fn)), len(stg.get_fs(fn)))
+                if lens != (TT, Fc, TT + 1, TT, Fc) or fr.shape != (TT, Fc):
+                    return True, f"file of {TT} integrations (tsamp={dt!r}) x {Fc} channels loads with axes of {lens[:3]} entries (helpers {lens[3:]})"
+    finally:
+        shutil.rmtree(tmp, ignore_errors=True)
+    return False, 'loaded frames have axes of exactly the file\'s counts on all candidates'
+
+
 # ------------------------------------------------------------------ concrete oracles
 def replay_history(p):
     import logging
@@ -555,7 +633,7 @@ def replay_tiny(p):
     return bool(bad), bad[0] if bad else 'tiny frames round-trip'
 
 
-REPLAYS = {'history': replay_history, 'helpers': replay_helpers, 'subband': replay_subband, 'tiny': replay_tiny}
+REPLAYS = {'history': replay_history, 'helpers': replay_helpers, 'subband': replay_subband, 'tiny': replay_tiny, 'loaded': replay_loaded}
 
 
 def main():
@@ -586,7 +664,10 @@ def main():
     for (nchans, nints) in ((1, 1), (7, 3), (16, 16)) + (((64, 8),) if ck.thorough else ()):
         for desc in (True, False):
             jobs.append(('job_helper_axes', (nchans, nints, desc)))
-    ck.bounds = dict(chain_shapes='2x3, 3x4 (symbolic content/geometry), stale Waterfall of another shape', history_length='<= 2 ops (thorough 3) before the final save', helper_axes='nchans up to 16 (thorough 64), symbolic header values')
+    for (T, Fc) in ((1, 1), (3, 2), (6, 4), (16, 3)) + (((12, 8), (32, 2)) if ck.thorough else ()):
+        for desc in (True, False):
+            jobs.append(('job_loaded_axes', (T, Fc, desc)))
+    ck.bounds = dict(chain_shapes='2x3, 3x4 (symbolic content/geometry), stale Waterfall of another shape', history_length='<= 2 ops (thorough 3) before the final save', helper_axes='nchans up to 16 (thorough 64), symbolic header values', loaded_axes='files of up to 16 integrations (thorough 32), binary64 delta model')
     ck.run_jobs('props.C03', jobs, timeout_s=2400)
     ck.finish()
 
